@@ -115,6 +115,10 @@ func newRange[H header.Header[H]](h H) *headerRange[H] {
 // Append appends new headers.
 func (r *headerRange[H]) Append(h ...H) {
 	r.lk.Lock()
+	if len(r.headers) == 0 && len(h) != 0 {
+		// the range may have been emptied by Remove since the caller looked at it: it starts anew
+		r.start = h[0].Height()
+	}
 	r.headers = append(r.headers, h...)
 	r.lk.Unlock()
 }
